@@ -187,7 +187,7 @@ func deliver(w *lz4.Writer, data []byte, d delivery) (string, error) {
 		if pos+c > len(data) {
 			c = len(data) - pos
 		}
-		n, err := w.Write(data[pos : pos+c])
+		n, err := writeScribbled(w, data[pos:pos+c])
 		if err != nil {
 			return fmt.Sprintf("Write#%d", i), err
 		}
@@ -202,7 +202,7 @@ func deliver(w *lz4.Writer, data []byte, d delivery) (string, error) {
 		}
 	}
 	if pos < len(data) || len(d.Chunks) == 0 {
-		n, err := w.Write(data[pos:])
+		n, err := writeScribbled(w, data[pos:])
 		if err != nil {
 			return "Write#last", err
 		}
@@ -213,13 +213,33 @@ func deliver(w *lz4.Writer, data []byte, d delivery) (string, error) {
 	return "", nil
 }
 
+// writeScribbled hands w a private copy of p and overwrites that copy as soon as Write has
+// returned: an io.Writer must not retain p, and callers do reuse their buffers.
+func writeScribbled(w io.Writer, p []byte) (int, error) {
+	bp := scribblePool.Get().(*[]byte)
+	if cap(*bp) < len(p) {
+		*bp = make([]byte, len(p))
+	}
+	buf := (*bp)[:len(p)]
+	copy(buf, p)
+	n, err := w.Write(buf)
+	for i := range buf {
+		buf[i] = 0x5A
+	}
+	scribblePool.Put(bp)
+	return n, err
+}
+
+var scribblePool = sync.Pool{New: func() interface{} { b := make([]byte, 1<<16); return &b }}
+
 // ---- reader configurations
 
 type rcfg struct {
 	Conc    int   `json:"conc"`
 	WriteTo bool  `json:"writeto"`
-	Sizes   []int `json:"sizes,omitempty"` // cyclic Read buffer sizes
-	Src     []int `json:"src,omitempty"`   // fragmentation of the compressed source
+	Sizes   []int `json:"sizes,omitempty"`   // cyclic Read buffer sizes
+	Src     []int `json:"src,omitempty"`     // fragmentation of the compressed source
+	EOFWith bool  `json:"eofwith,omitempty"` // the source returns its last bytes together with io.EOF
 }
 
 func drawRcfg(t *rapid.T, bs int) rcfg {
@@ -232,6 +252,7 @@ func drawRcfg(t *rapid.T, bs int) rcfg {
 	if rapid.IntRange(0, 2).Draw(t, "rsrc?") == 0 {
 		r.Src = drawChunkSchedule(t, bs, "rsrc")
 	}
+	r.EOFWith = rapid.IntRange(0, 3).Draw(t, "reofwith") == 0
 	return r
 }
 
@@ -246,7 +267,7 @@ type readResult struct {
 
 // readAll decodes z as configured. A clean end of stream is reported as Err == nil.
 func readAll(z []byte, rc rcfg, handler func(int)) readResult {
-	src := &inst.Source{Data: z, Chunks: rc.Src}
+	src := &inst.Source{Data: z, Chunks: rc.Src, EOFWith: rc.EOFWith}
 	r := lz4.NewReader(src)
 	opts := []lz4.Option{lz4.ConcurrencyOption(rc.Conc)}
 	if handler != nil {
